@@ -7,7 +7,8 @@ tail strip/re-append, and size caps.  The model makes exactly those things obser
 
  compressobj(level, method, wbits, memlevel): a context with a unique id; the k-th message compressed in
    it is emitted as   [0xC0|w, ctx, k, len] + payload + 00 00 ff ff      (w = -wbits, payload may be symbolic)
-   (worst case of context take-over: message k>0 is only decodable after messages 0..k-1 of the same context)
+   (worst case of context take-over: message k>0 is only decodable after messages 0..k-1 of the same context; message 0 of a
+   fresh context is decodable by any decoder, as a deflate stream from a reset compressor references nothing earlier)
  decompressobj(wbits): decodes incrementally, any chunking; raises zlib.error when the encoder's window
    exceeds its own, when the message is not the next one of the context it follows, or on malformed
    framing; honours max_length (rest goes to unconsumed_tail, as documented for zlib).
@@ -90,11 +91,11 @@ class _Decomp:
                     raise _zlib.error("Error -3 while decompressing data: invalid block type")
                 if (tag & 0x0F) > self.w:
                     raise _zlib.error("Error -3 while decompressing data: invalid window size")
-                if self.ctx is None:
-                    if seq != 0:
-                        raise _zlib.error("Error -3 while decompressing data: invalid distance too far back")
+                if seq == 0:
+                    # first message of a fresh compression context: references nothing earlier, any decoder state can decode it
                     self.ctx = ctx
-                elif ctx != self.ctx or seq != self.next_seq:
+                elif self.ctx is None or ctx != self.ctx or seq != self.next_seq:
+                    # a message that may reference earlier ones needs a decoder that has seen exactly those
                     raise _zlib.error("Error -3 while decompressing data: invalid distance too far back")
                 self.next_seq = seq + 1
                 self.hdr = (n,)
